@@ -86,7 +86,7 @@ theorem c02_checks_along (ver : Version) (max : Nat) (m : Bool) (h1 : 1 ≤ max)
   apply along_of_inv' B1 (fun l op => ¬ unsafeConnack l op) B1.step _ _ _ _ _ (B1.new ver max m h1 h2) hn.not_not
   intro l g op o hi hok ho hi' d d'
   obtain ⟨v1, v2, v3⟩ := step_fields g o
-  simp only [C02.checks, firstFail, chk, C02_noLoss_ok hi' o v1.symm v2.symm, C02_relHeld_ok hi' o v1.symm,
+  simp only [C02.checks, firstFail, chk, C02_noLoss_ok hi' o v1.symm v2.symm, C02_relAnswered_ok hi op o ho, C02_relHeld_ok hi' o v1.symm,
     C02_cleanExact_ok hi op o ho, if_true, List.findSome?_cons, List.findSome?_nil, id]
 
 theorem c10_checks_along (ver : Version) (max : Nat) (m : Bool) (h1 : 1 ≤ max) (h2 : max ≤ u16Max) (ops : List LOp)
